@@ -25,13 +25,15 @@ TABLE = {
 # rare-but-important conditions each thorough run must reach (prefix match on the probe name)
 REQUIRED_PROBES = {
     "C01": ["set-accepted", "set-rejected", "load-tree-accepted", "loads-", "list-single-accepted", "dict-single-accepted", "dynamic-field-set",
-            "container-assigned-from-other-field", "cmdline-override:applied", "dns-failure-during-assignment", "assign-map-accepted"],
+            "container-assigned-from-other-field", "cmdline-override:applied", "dns-failure-during-assignment", "assign-map-accepted",
+            "schema-grown:leaf", "declared-over-existing-undeclared-key", "set-accepted:key-older-than-declaration"],
     "C02": ["saved:json", "saved:yaml", "saved:bson", "saved:xml", "saved:pickle", "loaded:json", "loaded:yaml", "loaded:bson", "loaded:xml",
             "loaded:pickle", "restart"],
     "C03": ["saved-with-secrets", "secret-decrypts-with-model-key", "secret-recovered-in-new-session", "set-keyfile:root", "set-keyfile:sub",
-            "sub-configuration-adopted-from-other-tree:with-secret"],
+            "sub-configuration-adopted-from-other-tree:with-secret", "built-from-saved-sections:with-secret"],
     "C06": ["set-rejected", "assign-map-rejected", "list-single-rejected", "list-item-rejected-as-a-whole", "dict-single-rejected", "unparsable-doc:cut", "unparsable-doc:wrong_root",
-            "torn-doc-still-parses", "load-io-failure:open-err", "include-unusable:missing", "include-unusable:torn", "include-unusable:open-err"],
+            "torn-doc-still-parses", "load-io-failure:open-err", "include-unusable:missing", "include-unusable:torn", "include-unusable:open-err",
+            "schema-grown:sub-schema", "set-rejected:through-undeclared-level"],
     "C07": ["key-generated-in-run", "nested-enter", "enter:short:attempt2", "enter:valid:fault", "outermost-exit", "xor-full-key-recovered",
             "encrypt-closed", "restart"],
     "C08": ["aes-checked", "xor-checked:longer-than-key", "roundtrip:later-session", "decrypt-under-other-key:aes", "tamper:short", "tamper:unaligned",
@@ -40,7 +42,7 @@ REQUIRED_PROBES = {
     "C10": ["sensitive-slot-masked", "sensitive-slot-masked:list-item", "schema-evolved"],
     "C11": ["validate-returned", "validate-raised", "valid-state-with-disabled-violations", "validator-fault-inside-", "validator-ran-on-final-data:schema",
             "list-append-config-returned", "retry-rejected-config-item", "collect-agrees:invalid"],
-    "C12": ["callable-default-evaluated", "set-accepted", "set-rejected", "ctor-accepted", "assign-map-accepted"],
+    "C12": ["callable-default-evaluated", "set-accepted", "set-rejected", "ctor-accepted", "assign-map-accepted", "defined-status-by-deep-dotted-path"],
     "C13": ["deep-mutation", "deep-mutation:untyped", "include-loaded:cfg0", "include-loaded:cfg1", "b2-compared", "dynamic-field-set",
             "container-assigned-from-"],
     "C14": ["variable-in-effect:construct", "variable-in-effect:load", "assignment-over-variable", "load-with-bound-key",
